@@ -47,6 +47,10 @@ func ParseAuditPath(serialized map[string]hashing.Digest) AuditPath {
 	parsed := make(AuditPath, len(serialized))
 	for k, v := range serialized {
 		tokens := strings.Split(k, "|")
+		if len(tokens) != 2 {
+			// not a position key: skip it, verification will miss the entry it needs
+			continue
+		}
 		index, _ := strconv.Atoi(tokens[0])
 		height, _ := strconv.Atoi(tokens[1])
 		var key [keySize]byte
